@@ -39,6 +39,39 @@ RewriteFrom(old, es, k, start, offset) ==
          IF start > pos THEN RewriteFrom(old, es, k + 1, start, offset)
          ELSE SubSeq(old, start + 1, pos) \o es[k].ins \o RewriteFrom(old, es, k + 1, pos + es[k].del, offset)
 RewriteSplice(old, es, offset) == RewriteFrom(old, es, 1, 0, offset)
+\* ---- `rewrite` transformation (transform/rewrite.rs Rewrite::compute, replace_one) ----------------------
+\* cands: the nodes under the captured node(s) in DFS order, each with the rewriters that match it:
+\* [s, e, hits |-> <<[rw (position in the listed order), pos, del, ins]>>].
+\* I: per node the first listed rewriter that matches gives the edit ("stop at first fix")
+FirstHit(c) == LET ks == { k \in 1..Len(c.hits) : \A j \in 1..Len(c.hits) : c.hits[k].rw <= c.hits[j].rw } IN
+               c.hits[CHOOSE k \in ks : TRUE]
+RewriteEdits(cands) ==
+    LET idx == SelectSeq([k \in 1..Len(cands) |-> k], LAMBDA k : cands[k].hits # <<>>) IN
+    [i \in 1..Len(idx) |-> LET h == FirstHit(cands[idx[i]]) IN [pos |-> h.pos, del |-> h.del, ins |-> h.ins]]
+\* with joinBy: the replacement texts of the accepted edits joined; everything between them is dropped
+RECURSIVE JoinFrom(_, _, _, _, _)
+JoinFrom(es, k, start, offset, joiner) ==
+    IF k > Len(es) THEN <<>>
+    ELSE LET pos == es[k].pos - offset IN
+         IF start > pos THEN JoinFrom(es, k + 1, start, offset, joiner)
+         ELSE joiner \o es[k].ins \o JoinFrom(es, k + 1, pos + es[k].del, offset, joiner)
+RewriteJoin(es, offset, joiner) ==
+    IF es = <<>> THEN <<>>
+    ELSE es[1].ins \o JoinFrom(es, 2, es[1].pos - offset + es[1].del, offset, joiner)
+\* P (C06, last clause) for the accepted edits of a rewrite: each lies inside the captured text, they are ordered and
+\* disjoint, and the result is the captured text with exactly those ranges substituted
+RECURSIVE AcceptedFrom(_, _, _, _)
+AcceptedFrom(es, k, start, offset) ==
+    IF k > Len(es) THEN <<>>
+    ELSE LET pos == es[k].pos - offset IN
+         IF start > pos THEN AcceptedFrom(es, k + 1, start, offset)
+         ELSE <<[pos |-> pos, del |-> es[k].del, ins |-> es[k].ins]>> \o AcceptedFrom(es, k + 1, pos + es[k].del, offset)
+RewriteP(old, es, offset, out) ==
+    LET acc == AcceptedFrom(es, 1, 0, offset) IN
+    /\ \A k \in 1..Len(acc) : InBounds(Len(old), acc[k])
+    /\ OrderedDisjoint(acc)
+    /\ out = Splice(old, acc)
+
 \* ---- P for --update-all (C18) ------------------------------------------------
 \* P: every file = its original text with the announced edits of ALL its documents applied, an edit being
 \* dropped iff its range intersects an earlier accepted one; files without accepted edits are untouched
